@@ -183,6 +183,11 @@ DString * stdin_buffer(void) {
 		d_string_append_c_array(buffer, chunk, bytes);
 	}
 
+	// Strip UTF-8 BOM (as scan_file() does for the same text read from a file)
+	if (strncmp(buffer->str, "\xef\xbb\xbf", 3) == 0) {
+		d_string_erase(buffer, 0, 3);
+	}
+
 	fclose(stdin);
 
 	return buffer;
